@@ -1,4 +1,5 @@
 import Jose.Own
+import Jose.Rc
 import Jose.B64
 import Jose.Props.C08
 import Jose.Props.C14
@@ -89,5 +90,161 @@ example : (autoRelease {} .callerRef).balanced = false := by decide
     reference count where it was -/
 theorem io_next_balanced (sink n : Nat) : sinkAfterFree (sinkAfterBuild sink n) n = sink := by
   cases n <;> simp [sinkAfterBuild, sinkAfterFree]
+
+/-! ### (3) reference counts of an IO chain, operationally (`Jose/Rc.lean`)
+
+  `io_next_balanced` above counts; the theorems below run the cascade.  For a chain of any length,
+  with the caller holding a handle on any subset of its stages, releasing handles in **any order**
+  never decrements a freed stage (no use-after-free, no double free), keeps every count equal to
+  "handles held + one if the stage above is alive", and frees everything once the last handle is gone. -/
+open Jose.Rc
+
+/-- the stage above dies: its reference to the chain below is released, cascading exactly as far as
+    stages are held by nothing else -/
+theorem decHead_parent_dies (hs : List Bool) : decHead (rcOf true hs) = some (rcOf false hs) := by
+  induction hs with
+  | nil => rfl
+  | cons h r ih =>
+    cases h
+    · simp [rcOf, decHead, ih]
+    · simp [rcOf, decHead]
+
+/-- releasing a held handle: the heap ends in exactly the state the specification names -/
+theorem decAt_release (pa : Bool) (i : Nat) (hs : List Bool) (h : hs[i]? = some true) :
+    decAt i (rcOf pa hs) = some (rcOf pa (hs.set i false)) := by
+  induction i generalizing pa hs with
+  | zero =>
+    cases hs with
+    | nil => simp at h
+    | cons x r =>
+      simp at h; subst h
+      cases pa
+      · simp [decAt, rcOf, decHead, decHead_parent_dies]
+      · simp [decAt, rcOf, decHead]
+  | succ i ih =>
+    cases hs with
+    | nil => simp at h
+    | cons x r =>
+      simp at h
+      simp [decAt, rcOf, ih _ r h]
+
+/-- the order of releases on the handle table alone -/
+def relAbs : List Nat → List Bool → Option (List Bool)
+  | [], hs => some hs
+  | i :: is, hs => if hs[i]? = some true then relAbs is (hs.set i false) else none
+
+/-- **No memory error in any release order, counts always as specified**: the operational heap and
+    the handle table agree step for step; the run stops only where the *caller* releases a handle it
+    does not hold -/
+theorem releaseAll_refines (order : List Nat) (hs : List Bool) :
+    releaseAll order (hs, rcOf false hs) = (relAbs order hs).map (fun hs' => (hs', rcOf false hs')) := by
+  induction order generalizing hs with
+  | nil => rfl
+  | cons i is ih =>
+    simp only [releaseAll, relAbs]
+    split
+    · rename_i h
+      rw [decAt_release false i hs h]
+      exact ih _
+    · rfl
+
+/-- once no handle is held, every stage has been freed -/
+theorem no_handles_all_freed (pa : Bool) (hs : List Bool) (h : ∀ b ∈ hs, b = false) (hpa : pa = false) :
+    ∀ c ∈ rcOf pa hs, c = 0 := by
+  subst hpa
+  induction hs with
+  | nil => simp [rcOf]
+  | cons x r ih =>
+    have hx : x = false := h x (by simp)
+    subst hx
+    intro c hc
+    simp [rcOf] at hc
+    rcases hc with rfl | hc
+    · rfl
+    · exact ih (fun b hb => h b (by simp [hb])) c hc
+
+/-- **No leak**: whatever order the handles of a freshly built chain are released in, if the run
+    ends with no handle held then every reference count is zero -/
+theorem built_released_freed (n : Nat) (order : List Nat) (hs' : List Bool) (rc' : List Nat)
+    (h : releaseAll order (built n) = some (hs', rc')) (hall : ∀ b ∈ hs', b = false) :
+    ∀ c ∈ rc', c = 0 := by
+  unfold built at h
+  rw [releaseAll_refines] at h
+  cases hr : relAbs order (List.replicate n true) with
+  | none => simp [hr] at h
+  | some x =>
+    simp [hr] at h
+    obtain ⟨h1, h2⟩ := h
+    subst h1; subst h2
+    exact no_handles_all_freed false _ hall rfl
+
+/-- the three handles of `hsh()` (`_hsh`, `enc`, `buf`): scope exit releases them in reverse
+    declaration order, the head last; every other order is as good -/
+example : releaseAll [2, 1, 0] (built 3) = some ([false, false, false], [0, 0, 0]) ∧
+    releaseAll [0, 1, 2] (built 3) = some ([false, false, false], [0, 0, 0]) ∧
+    releaseAll [1, 0, 2] (built 3) = some ([false, false, false], [0, 0, 0]) ∧
+    releaseAll [0] (built 3) = some ([false, true, true], [0, 1, 2]) := by decide
+
+/-- a decref without the matching reference (the shape of the defect repaired in `jose_jws_hdr`, and
+    of a stage that forgets `jose_io_incref(next)`) is reported by the heap: the sink is freed twice -/
+example : decAt 1 [1, 1] = some [1, 0] ∧ (decAt 1 [1, 1]).bind (decAt 0) = none := by decide
+
+/-- on the handle table: releasing distinct held handles always succeeds, clears exactly those -/
+theorem relAbs_nodup (order : List Nat) (hs : List Bool) (hnd : order.Nodup)
+    (hheld : ∀ i ∈ order, hs[i]? = some true) :
+    ∃ hs', relAbs order hs = some hs' ∧ hs'.length = hs.length ∧
+      (∀ j, j ∈ order → hs'[j]? = some false) ∧ (∀ j, j ∉ order → hs'[j]? = hs[j]?) := by
+  induction order generalizing hs with
+  | nil => exact ⟨hs, rfl, rfl, by simp, by simp⟩
+  | cons i is ih =>
+    have hi : hs[i]? = some true := hheld i (by simp)
+    have hnd' := List.nodup_cons.mp hnd
+    have hheld' : ∀ j ∈ is, (hs.set i false)[j]? = some true := by
+      intro j hj
+      have hne : i ≠ j := fun e => hnd'.1 (e ▸ hj)
+      rw [List.getElem?_set_ne hne]
+      exact hheld j (by simp [hj])
+    obtain ⟨hs', h1, h2, h3, h4⟩ := ih (hs.set i false) hnd'.2 hheld'
+    refine ⟨hs', by simp [relAbs, hi, h1], by simpa using h2, ?_, ?_⟩
+    · intro j hj
+      rcases List.mem_cons.mp hj with rfl | hj
+      · rw [h4 j hnd'.1]
+        have hlt : j < hs.length := by
+          rcases Nat.lt_or_ge j hs.length with h | h
+          · exact h
+          · rw [List.getElem?_eq_none h] at hi; cases hi
+        simp [List.getElem?_set_self hlt]
+      · exact h3 j hj
+    · intro j hj
+      have hji : i ≠ j := fun e => hj (by simp [e])
+      have hjs : j ∉ is := fun e => hj (by simp [e])
+      rw [h4 j hjs, List.getElem?_set_ne hji]
+
+/-- **Every release order of all the handles frees the whole chain without a memory error**: for a
+    chain of any length `n` and any permutation of its `n` handles -/
+theorem any_order_frees_all (n : Nat) (order : List Nat) (hp : order.Perm (List.range n)) :
+    ∃ hs' rc', releaseAll order (built n) = some (hs', rc') ∧ (∀ b ∈ hs', b = false) ∧ (∀ c ∈ rc', c = 0) := by
+  have hnd : order.Nodup := (List.Perm.nodup_iff hp).mpr List.nodup_range
+  have hmem : ∀ i, i ∈ order ↔ i < n := fun i => by rw [List.Perm.mem_iff hp, List.mem_range]
+  have hheld : ∀ i ∈ order, (List.replicate n true)[i]? = some true := by
+    intro i hi
+    have : i < n := (hmem i).mp hi
+    simp [this]
+  obtain ⟨hs', h1, h2, h3, _⟩ := relAbs_nodup order _ hnd hheld
+  have hall : ∀ b ∈ hs', b = false := by
+    intro b hb
+    obtain ⟨j, hj⟩ := List.mem_iff_getElem?.mp hb
+    have hlt : j < n := by
+      rcases Nat.lt_or_ge j hs'.length with h | h
+      · rw [h2] at h; simpa using h
+      · rw [List.getElem?_eq_none h] at hj; cases hj
+    have := h3 j ((hmem j).mpr hlt)
+    rw [this] at hj
+    exact (Option.some.inj hj).symm
+  have hrun : releaseAll order (built n) = some (hs', rcOf false hs') := by
+    unfold built
+    rw [releaseAll_refines, h1]
+    rfl
+  exact ⟨hs', _, hrun, hall, no_handles_all_freed false hs' hall rfl⟩
 
 end Jose.Props.C09
